@@ -103,6 +103,16 @@ Theorem C07_join_polyline_draw_translate : forall w d pts,
   poly_thick_rects (map (tr_pt d) pts) w = option_map (map (fun r => translate_rect r d)) (poly_thick_rects pts w).
 Proof. exact poly_thick_rects_tr. Qed.
 
+(* the same two statements under the single computable hypothesis poly_hyps (Model/Join.v), which the model oracle
+   evaluates on every generated case (suite join_poly_hyp) *)
+Theorem C07_join_polyline_vertices_translate_computable : forall w d pts t, poly_hyps pts w d = true ->
+  poly_thick_points (map (tr_pt d) pts) t w = option_map (map (tr_pt d)) (poly_thick_points pts t w).
+Proof. exact poly_thick_points_tr_hyps. Qed.
+
+Theorem C07_join_polyline_draw_translate_computable : forall w d pts, poly_hyps pts w d = true ->
+  poly_thick_rects (map (tr_pt d) pts) w = option_map (map (fun r => translate_rect r d)) (poly_thick_rects pts w).
+Proof. exact poly_thick_rects_tr_hyps. Qed.
+
 (* the translate field of Polyline (Transform::translate): added to every pixel, no hypothesis *)
 Theorem C07_join_polyline_field_translate : forall w pts t d,
   poly_thick_points pts (padd t d) w = option_map (map (tr_pt d)) (poly_thick_points pts t w).
